@@ -344,6 +344,7 @@ def havoc_for_call(eng, c, b, s, spec_st, label):
     may = (lambda r: z3.Or([r == x for x in refs])) if refs else (lambda r: z3.BoolVal(False))
     s.heap = new
     s.assume(*new.frame_facts(old_heap, kinds, fields, may))
+    s.assume(*new.closed_facts())
     if "stdout" in c.opts.get("ghost_modifies", ()):
         s.ghost["stdout"] = (fresh("out_n", smt.I), fresh("out_arr", smt.ArrIV))
 
